@@ -163,6 +163,20 @@ Theorem C14_functions_after_filters_from_text : forall cfg parse_float regex_ok 
             end.
 Proof. exact fchain_fun_retrieval. Qed.
 Print Assumptions C14_functions_after_filters_from_text.
+(* the same for a path written without its leading `$` (NoDollarFun.v): `a[?(@.k)].v.f().g()` *)
+From JP Require Import NoDollarFun.
+Theorem C14_functions_without_dollar_from_text : forall cfg parse_float regex_ok ffun afun regex_match,
+  (forall f v w, small v -> ffun f v = Some w -> small w) ->
+  (forall f l w, Forall small l -> afun f l = Some w -> small w) ->
+  forall s l f fs doc st, step_ok s = true -> forallb fstep_ok l = true -> forallb (fstep_okp parse_float regex_ok) l = true ->
+  forallb fname_ok (f :: fs) = true -> forallb (fun_known cfg) (f :: fs) = true -> small doc -> ok st ->
+  exists t, parse_with cfg parse_float regex_ok jsonpath_grammar (fchain_fun_path0 s l (f :: fs)) = ParseOk t /\
+            match funs_all cfg ffun (f :: fs) (nav_allf parse_float regex_match doc (FS (RPlain s) :: l) ([], doc)) with
+            | [] => exists e, fst (eval_run ffun afun regex_match t doc st) = OErr e
+            | r => fst (eval_run ffun afun regex_match t doc st) = OOk r
+            end.
+Proof. exact fchain_fun_retrieval0. Qed.
+Print Assumptions C14_functions_without_dollar_from_text.
 
 (* `$.a[?(@.k)].v.id()` : the function applied to the `v` of the members that have a `k` *)
 Example C14_after_filters_example :
@@ -205,6 +219,20 @@ Theorem C14_aggregate_after_filters_from_text : forall cfg parse_float regex_ok 
             end.
 Proof. exact fchain_agg_retrieval. Qed.
 Print Assumptions C14_aggregate_after_filters_from_text.
+(* the same for a path written without its leading `$` (NoDollarAgg.v): `a[?(@.k)].v.g().f()` *)
+From JP Require Import NoDollarAgg.
+Theorem C14_aggregate_without_dollar_from_text : forall cfg parse_float regex_ok ffun afun regex_match,
+  (forall f v w, small v -> ffun f v = Some w -> small w) ->
+  (forall f l w, Forall small l -> afun f l = Some w -> small w) ->
+  forall s l g fs doc st, step_ok s = true -> forallb fstep_ok l = true -> forallb (fstep_okp parse_float regex_ok) l = true ->
+  forallb fname_ok (g :: fs) = true -> agg_known cfg g = true -> forallb (fun_known cfg) fs = true -> small doc -> ok st ->
+  exists t, parse_with cfg parse_float regex_ok jsonpath_grammar (fchain_fun_path0 s l (g :: fs)) = ParseOk t /\
+            match fagg_outcome parse_float ffun afun regex_match (FS (RPlain s) :: l) g fs doc with
+            | Some w => fst (eval_run ffun afun regex_match t doc st) = OOk [fun_result cfg w]
+            | None => exists e, fst (eval_run ffun afun regex_match t doc st) = OErr e
+            end.
+Proof. exact fchain_agg_retrieval0. Qed.
+Print Assumptions C14_aggregate_without_dollar_from_text.
 
 (* `$.a[?(@.k)].v.cnt()` : the aggregate receives the `v` of the members that have a `k`, once *)
 Example C14_aggregate_after_filters_example :
